@@ -421,6 +421,9 @@ def r7_clear_sweeps_everything(ctx):
 
 
 def run(ctx):
+    # E-names (rules/siblingfield.py): a local named after one field of a struct is not computed from its sibling
+    from . import siblingfield
+    siblingfield.rule_names(ctx, "C10.R9", ["cascette_cache"])
     # E-drop (rules/dropped.py): no bool result of a function of these modules is thrown away by a caller anywhere in the workspace
     from . import dropped
     dropped.rule_dropped(ctx, "C10.R8", [k for k in ["cascette_formats", "cascette_client_storage", "cascette_cache", "cascette_protocol", "cascette_ribbit"] if k in (CRATES or [])] or CRATES, r"cascette-cache/src/", floor=20)
